@@ -71,6 +71,15 @@ def gen_cases(tier, seed):
             if len(s) == 2 and s[0][1] == s[1][1]:
                 add(pattern, 3, 0.0, wa, step, s)
                 cases[-1]['unsorted'] = True
+    # sensors with a lever arm (the feedback filter then attaches body rates to the predicted state): all singles
+    # and the coincident cross-sensor pairs
+    for pattern, step, wa in _cfgs(tier):
+        if tier == 'quick' and step in ('equal', 'huge') and not wa:
+            continue
+        for s in subsets3:
+            if len(s) == 1 or (len(s) == 2 and s[0][0] == s[1][0] and tier == 'thorough'):
+                add(pattern, 3, 0.0, wa, step, s)
+                cases[-1]['lever'] = True
     # near-coincident epochs (0.24 microseconds apart), same and different sensors
     twins = schedx.twin_family(3)
     for pattern, step, wa in _cfgs(tier):
